@@ -303,6 +303,9 @@ func genFileSet(r *rand.Rand, o mergeGenOpt) []*mfile {
 	for _, f := range files {
 		wild := r.Intn(2) == 0
 		f.L = &gen.Layout{R: r, Wild: wild, Comments: r.Intn(2) == 0, CRLF: wild && r.Intn(6) == 0}
+		if o.HostileText && r.Intn(40) == 0 {
+			f.L.Long = 66000 + r.Intn(3000) // declarations behind a line longer than 64 KiB
+		}
 		f.Txt = f.Doc.Render(f.L)
 		if f.Broken == "syntax" {
 			garbage := []string{"\ntype\n", "\n  define x\n", "\ntype t t\n", "\n$\n", "\ncondition c( {\n}\n"}[r.Intn(5)]
